@@ -183,47 +183,60 @@ def _run_shard(args) -> dict:
             if do_shrink:
                 phases.append(Phase.shrink)
             shrink_cap = 40.0 if tier == "quick" else 150.0
+            # The budget is spent in chunks (separate Hypothesis runs with derived seeds) so that a wall-clock
+            # cap ends the search at a chunk boundary instead of generating the remaining examples for nothing.
+            n_chunks = 8 if budget >= 400 else 1
+            chunk = (budget + n_chunks - 1) // n_chunks
 
-            @hypothesis.seed(seed * 1000 + shard)
-            @settings(
-                max_examples=budget,
-                database=None,
-                deadline=None,
-                derandomize=False,
-                report_multiple_bugs=False,
-                phases=phases,
-                suppress_health_check=list(HealthCheck),
-                print_blob=False,
-            )
-            @given(case=prop.strategy(tier))
-            def test(case):
-                now = boot.REAL_PERF()
-                if state["first_fail_at"] is None:
-                    if now - t0 > wall:
-                        out["budget_exhausted"] = True
-                        return
-                else:
-                    if now - state["first_fail_at"] > shrink_cap:
-                        return  # stop shrinking: nothing else "fails"
-                um = evaluate(case)
-                if um:
+            def run_chunk(ci: int) -> None:
+                @hypothesis.seed((seed * 1000 + shard) * 16 + ci)
+                @settings(
+                    max_examples=chunk,
+                    database=None,
+                    deadline=None,
+                    derandomize=False,
+                    report_multiple_bugs=False,
+                    phases=phases,
+                    suppress_health_check=list(HealthCheck),
+                    print_blob=False,
+                )
+                @given(case=prop.strategy(tier))
+                def test(case):
+                    now = boot.REAL_PERF()
                     if state["first_fail_at"] is None:
-                        state["first_fail_at"] = now
-                    out["failures"].append((len(canon(case)), case, um))
-                    raise _Found()
+                        if now - t0 > wall:
+                            out["budget_exhausted"] = True
+                            return
+                    else:
+                        if now - state["first_fail_at"] > shrink_cap:
+                            return  # stop shrinking: nothing else "fails"
+                    um = evaluate(case)
+                    if um:
+                        if state["first_fail_at"] is None:
+                            state["first_fail_at"] = now
+                        out["failures"].append((len(canon(case)), case, um))
+                        raise _Found()
 
-            try:
-                test()
-            except _Found:
-                pass
-            except hypothesis.errors.HypothesisException as e:
-                if not out["failures"]:
-                    out["harness_error"] = "hypothesis: " + repr(e)
-            except BaseException as e:  # noqa: BLE001
-                if not out["failures"]:
-                    out["harness_error"] = "".join(
-                        traceback.format_exception(type(e), e, e.__traceback__)
-                    )[-4000:]
+                try:
+                    test()
+                except _Found:
+                    pass
+                except hypothesis.errors.HypothesisException as e:
+                    if not out["failures"]:
+                        out["harness_error"] = "hypothesis: " + repr(e)
+                except BaseException as e:  # noqa: BLE001
+                    if not out["failures"]:
+                        out["harness_error"] = "".join(
+                            traceback.format_exception(type(e), e, e.__traceback__)
+                        )[-4000:]
+
+            for ci in range(n_chunks):
+                if out["failures"] or out["budget_exhausted"] or out["harness_error"]:
+                    break
+                if ci and boot.REAL_PERF() - t0 > wall:
+                    out["budget_exhausted"] = True
+                    break
+                run_chunk(ci)
     except BaseException as e:  # noqa: BLE001
         out["harness_error"] = "".join(
             traceback.format_exception(type(e), e, e.__traceback__)
